@@ -16,7 +16,9 @@ LEVEL_NOTE = ('gfortran -O0 with run-time checks is the reference semantics; pro
               'reals compared to rtol 1e-11; sampled programs and inputs only')
 RULE = ('InlineGen programs (ProgGen kernel interleaved with calls to generated module subroutines/functions, elemental '
         'functions, internal procedures, statement functions, imported and local PARAMETERs; argument aliasing, keyword/'
-        'optional arguments with PRESENT, local-name clashes, sections and lower bounds /= 1 as actuals, expression '
+        'optional arguments with PRESENT, local-name clashes with the caller and -- in 60 % of the subroutine cases -- between '
+        'two internal / marked callees whose same-named local differs in type or shape, callee names spelled in different '
+        'letter case in declarations and uses (30 %), sections and lower bounds /= 1 as actuals, expression '
         'actuals, nested calls, function references inside larger expressions, initialised callee locals, automatic '
         'arrays). One mode per case: inline_marked_subroutines, inline_internal_procedures, inline_functions, '
         'inline_elemental_functions, inline_statement_functions, inline_constant_parameters, or InlineTransformation '
@@ -111,15 +113,28 @@ def plan(idx, rng):
         f['simple_conditions'] = opts['remove_dead_code'] and hazard != 'deadcode_simplify'
         if not (opts['inline_marked'] or opts['inline_elementals']):
             opts[rng.choice(['inline_marked', 'inline_elementals'])] = True
-    f['must_call'] = {'marked': ['hsub'], 'internal': ['isub', 'ifun'], 'functions': ['hfun'], 'elemental': ['hele'],
+    f['must_call'] = {'marked': ['hsub'], 'internal': ['isub', 'isub2', 'ifun'], 'functions': ['hfun'], 'elemental': ['hele'],
                       'stmtfunc': ['sf1', 'sf2'], 'constants': [],
-                      'composed': ['hsub', 'hele', 'isub', 'sf2']}[mode]
+                      'composed': ['hsub', 'hele', 'isub', 'isub2', 'sf2']}[mode]
     if hazard == 'assoc_param':
         f['associate'] = True
         opts['external_only'] = False
     f['max_stmts'] = rng.choice([5, 7, 9])
     f['call_density'] = rng.choice([0.25, 0.35, 0.5])
     f.setdefault('associate', rng.random() < 0.5)
+    if hazard is None:
+        # (drawn last and only outside the hazard slice, so that the hazard cases stay as they were)
+        # several callees with same-named locals of different type / shape that the caller does not declare
+        f['twin_locals'] = mode in ('marked', 'internal', 'composed') and rng.random() < 0.6
+        if f['twin_locals'] and mode in ('marked', 'composed'):
+            f['must_call'] = f['must_call'] + ['hsub2']
+        # declarations and uses of callee locals / scalar dummies spelled in different letter case
+        f['respell'] = rng.random() < 0.3
+        if (idx % 32 == 10 or idx % 64 in (33, 8)) and mode in ('marked', 'internal', 'composed'):
+            # array dummies too: known defect (uses of an array dummy are matched to its declaration by a case-sensitive
+            # name comparison), own small slice outside the hazard rotation
+            hazard = 'respell_array_dummy'
+            f['respell'] = f['respell_array_dummy'] = True
     return mode, hazard, f, opts
 
 
@@ -131,7 +146,7 @@ def innermost_loki_frame(exc):
     return name
 
 
-_CALLEE_RE = re.compile(r'\b(hsub2?|isub|hfun2?|hele|ifun|sf[12])\s*\(', re.I)
+_CALLEE_RE = re.compile(r'\b(hsub2?|isub2?|hfun2?|hele|ifun|sf[12])\s*\(', re.I)
 _PARAM_RE = re.compile(r'\b(nc[123]|cp[1-4]|lpar[12])\b', re.I)
 
 
@@ -147,7 +162,7 @@ def kern_exec(unit_text):
     return '\n'.join(ln for ln in t.splitlines() if not ln.strip().startswith('!'))
 
 
-TARGETS = {'marked': r'call\s+hsub2?', 'internal': r'isub|ifun', 'functions': r'hfun2?|hele', 'elemental': r'hele',
+TARGETS = {'marked': r'call\s+hsub2?', 'internal': r'isub2?|ifun', 'functions': r'hfun2?|hele', 'elemental': r'hele',
            'stmtfunc': r'sf[12]', 'constants': r'(?!x)x'}
 
 
@@ -288,6 +303,9 @@ def classify(mode, hazard, symptom, detail, case, new_text, exc=None):
         return 'inline:nested-reference-to-same-function-left-behind'
     if hazard == 'deadcode_simplify':
         return 'inline:remove_dead_code:simplify-rewrites-or-rejects-condition'
+    if hazard == 'respell_array_dummy' and symptom in ('compile', 'differ') and \
+            re.search(r'\b(xin2?|yio|xv)\s*\(', kern_exec(lo_new)):
+        return 'inline:array-dummy-use-spelled-in-other-case-than-declaration'
     if hazard == 'fun_array_arg' and symptom in ('differ', 'compile', 'exception'):
         return 'inline:elemental-function-with-array-argument'
     if symptom == 'exception':
